@@ -179,6 +179,7 @@ def run_package(prop, seed, tier, replay):
                    "prepareStackTrace paths, plus on-disk path/line lookups (mapped, no map, broken map, missing file, unknown "
                    "file); TracePackage.tla steps the model along the events; non-trivial = a throw inside a modified text",
            "exhaustive": True}
+    cov["enclosing_positions_compared"] = sum(int((c.get("event") or {}).get("enclosing_checked", 0) or 0) for c in res["cases"].values())
     return {"verdicts": vs, "cases": res["cases"], "level": "model_checking", "coverage": cov,
             "assumptions": COMMON_ASSUMPTIONS + ["the wasm module is replaced by a table of results of the native driver; "
                                                  "lru-cache by a 10-line LRU with the same get/set/max contract",
